@@ -136,14 +136,14 @@ func hostCond(r *vlib.PRNG, idx int, perm []int) runDesc {
 // makeRuns builds the K runs of a case: half under family A, half under B;
 // B's first run is the natural schedule (no injected delays), all others use
 // PRNG delays with a seed of their own; raceRuns of them use the -race build.
-func makeRuns(r *vlib.PRNG, k, raceRuns, reps int) []runDesc {
-	return makeRunsSplit(r, k, k/2, raceRuns, reps)
+func makeRuns(r *vlib.PRNG, k, raceRuns, reps int, cross bool) []runDesc {
+	return makeRunsSplit(r, k, k/2, raceRuns, reps, cross)
 }
 
 // makeRunsSplit: the first nA of the k runs are family A.
 // The k fresh-process runs are followed by one more family-A child that
 // executes the simulation reps times in one process.
-func makeRunsSplit(r *vlib.PRNG, k, nA, raceRuns, reps int) []runDesc {
+func makeRunsSplit(r *vlib.PRNG, k, nA, raceRuns, reps int, cross bool) []runDesc {
 	perm := r.Perm(len(gomaxprocsPool))
 	runs := make([]runDesc, 0, k)
 	racePick := r.Perm(k)
@@ -169,6 +169,11 @@ func makeRunsSplit(r *vlib.PRNG, k, nA, raceRuns, reps int) []runDesc {
 	if reps > 1 {
 		h := hostCond(r, k, perm) // plain build: the -race build is ~10x slower and this child runs the program reps times
 		h.Family, h.Delays, h.DelaySeed, h.Reps = "A", true, r.Uint64(), reps
+		h.IDOffset = int64(pick(r, 1, 12345, 999990)) // ids taken from akita's generator before every platform build
+		if cross {                                    // one more execution, with the id counter passing a power of ten inside a kernel
+			h.Reps++
+			h.IDCrossDigits, h.IDCrossAfter, h.IDCrossMiddle = pick(r, 5, 6, 7), int64(pick(r, 500, 1500, 4000)), r.Bool()
+		}
 		runs = append(runs, h)
 	}
 	return runs
@@ -329,9 +334,18 @@ func canonicalCases(reps, nB2 int) []caseRuns {
 			{Family: "A", Delays: true, DelaySeed: s + 1, GOMAXPROCS: 2, GOGC: "100"},
 			{Family: "A", Delays: true, DelaySeed: s + 2, GOMAXPROCS: 16, GOGC: "10"},
 			{Family: "B", Delays: true, DelaySeed: s + 3, GOMAXPROCS: 4, GOGC: "off"},
-			{Family: "A", Delays: true, DelaySeed: s + 4, GOMAXPROCS: 4, GOGC: "100", Reps: reps},
+			{Family: "A", Delays: true, DelaySeed: s + 4, GOMAXPROCS: 4, GOGC: "100", Reps: reps + 1, IDOffset: 12345, IDCrossDigits: 5 + i, IDCrossAfter: 1500},
 		}})
 	}
+	// id-generator offsets: FIR with 96 work-groups of four wavefronts (some
+	// compute units hold two wavefronts per SIMD, created around the crossing)
+	fir := caseDesc{Name: "canon-fir-24576-r9nano-id-offsets", Workload: "fir", Params: map[string]int{"length": 24576, "taps": 16}, Timing: true, GPUs: []int{1}, RandSeed: 1}
+	out = append(out, caseRuns{Case: fir, Canonical: true, Runs: []runDesc{
+		{Family: "A", Delays: true, DelaySeed: 0xC05F1, GOMAXPROCS: 4, GOGC: "100"},
+		{Family: "A", Delays: true, DelaySeed: 0xC05F2, GOMAXPROCS: 2, GOGC: "100", IDOffset: 999990},
+		{Family: "A", Delays: true, DelaySeed: 0xC05F3, GOMAXPROCS: 4, GOGC: "100", Reps: 2, IDOffset: 1, IDCrossDigits: 5, IDCrossAfter: 1500},
+		{Family: "A", Delays: true, DelaySeed: 0xC05F4, GOMAXPROCS: 16, GOGC: "100", Reps: 2, IDOffset: 12345, IDCrossDigits: 6, IDCrossAfter: 4000},
+	}})
 	return append(out, copyHandoffCanon()...)
 }
 
@@ -387,13 +401,14 @@ func buildCases(c *vlib.Check) (cases []caseRuns, par []caseRuns) {
 				// a race run instead, slots 1, 2, 3 and 5 keep theirs
 				slotRace = 0
 			}
-			runs := makeRuns(r.Fork("runs"), k, slotRace, reps)
+			cross := c.Thorough() || slot == 2 || slot == 3
+			runs := makeRuns(r.Fork("runs"), k, slotRace, reps, cross)
 			if slot == 6 {
 				// the member order of a unified device is decided once per process:
 				// more runs (thorough), most of them judged bit for bit; the
 				// in-process repetitions draw the order again
 				extra := c.N(0, 2)
-				runs = makeRunsSplit(r.Fork("runs"), k+extra, k/2+1+extra/2, slotRace, reps)
+				runs = makeRunsSplit(r.Fork("runs"), k+extra, k/2+1+extra/2, slotRace, reps, cross)
 			}
 			cases = append(cases, caseRuns{Case: cd, Runs: runs})
 		}
@@ -643,7 +658,7 @@ func (j *judge) judgeCase(cr caseRuns, recs []runRecord, serialRef *runRecord) {
 				}
 				j.mu.Unlock()
 				if cr.Contended {
-					if sb >= 20 {
+					if sb >= 8 { // the two contended cases show 30-40 such cycles; small kernel-argument / layout changes in /repo move that number
 						c.Count("mi300a_contended_case_executions_with_same_bank_contention", 1)
 					} else {
 						c.Count("mi300a_contended_case_executions_without_same_bank_contention", 1)
@@ -721,22 +736,30 @@ func (j *judge) judgeCase(cr caseRuns, recs []runRecord, serialRef *runRecord) {
 		fam := rr.Job.Run.Family
 		if strict {
 			c.Count("A_pairs_compared_bit_for_bit", 1)
+			aPre := "C05|A|"
+			if rr.Job.Run.IDOffset != ref.Job.Run.IDOffset {
+				// the two fresh processes differ (also) in how many ids were taken
+				// from akita's id generator before the platform was built
+				aPre = "C05|id-offset|"
+				c.Count("id_offset_fresh_process_pairs_compared", 1)
+				c.Distinct("id_offset", strconv.FormatInt(rr.Job.Run.IDOffset, 10))
+			}
 			if bufDiffers {
-				c.Violation("C05|A|buffer", fmt.Sprintf("case %s: final device memory differs between two quiescent-hand-off runs: %s", cr.Case.Name, bufDiff(ref.Res, rr.Res)),
+				c.Violation(aPre+"buffer", fmt.Sprintf("case %s: final device memory differs between two quiescent-hand-off runs: %s", cr.Case.Name, bufDiff(ref.Res, rr.Res)),
 					j.witness(cr, ref, rr, nil))
 			}
 			if timeDiff {
-				c.Violation("C05|A|engine-time", fmt.Sprintf("case %s: Engine.CurrentTime() differs between two quiescent-hand-off runs (after program %s vs %s, after read-back %s vs %s, end %s vs %s)",
+				c.Violation(aPre+"engine-time", fmt.Sprintf("case %s: Engine.CurrentTime() differs between two quiescent-hand-off runs (after program %s vs %s, after read-back %s vs %s, end %s vs %s)",
 					cr.Case.Name, ftime(ref.Res.TimeRunBits), ftime(rr.Res.TimeRunBits), ftime(ref.Res.TimeDumpBits), ftime(rr.Res.TimeDumpBits), ftime(ref.Res.TimeEndBits), ftime(rr.Res.TimeEndBits)),
 					j.witness(cr, ref, rr, nil))
 			}
 			whats, rowSet := splitRowSet(sortedKeys(d.byWhat))
 			if len(rowSet) > 0 {
-				c.Violation("C05|A|metric-row-set", fmt.Sprintf("case %s: two quiescent-hand-off runs report different sets of mgpusim_metrics rows (rows present in only one of them, by 'what': %v)", cr.Case.Name, rowSet),
+				c.Violation(aPre+"metric-row-set", fmt.Sprintf("case %s: two quiescent-hand-off runs report different sets of mgpusim_metrics rows (rows present in only one of them, by 'what': %v)", cr.Case.Name, rowSet),
 					j.witness(cr, ref, rr, map[string]any{"examples": diffExamples(d, prefixed(rowSet), 8)}))
 			}
 			for _, w := range whats {
-				c.Violation("C05|A|metric|"+w, fmt.Sprintf("case %s: %d rows of mgpusim_metrics '%s' differ between two quiescent-hand-off runs", cr.Case.Name, d.byWhat[w], w),
+				c.Violation(aPre+"metric|"+w, fmt.Sprintf("case %s: %d rows of mgpusim_metrics '%s' differ between two quiescent-hand-off runs", cr.Case.Name, d.byWhat[w], w),
 					j.witness(cr, ref, rr, map[string]any{"examples": diffExamples(d, []string{w}, 8)}))
 			}
 			continue
@@ -1139,7 +1162,7 @@ func (j *judge) judgeParallelRaces(cr caseRuns, rr runRecord) {
 // attributed to their repetition by file.
 func (j *judge) judgeRepetitions(cr caseRuns, rr runRecord) {
 	c := j.c
-	const pre = "C05|in-process-repetition|"
+	pre := "C05|in-process-repetition|"
 	first := rr
 	wit := func(k int, other repRecord, extra map[string]any) map[string]any {
 		o := rr
@@ -1159,7 +1182,28 @@ func (j *judge) judgeRepetitions(cr caseRuns, rr runRecord) {
 			c.Count("in_process_repetitions_not_quiescent_not_judged", 1)
 			continue
 		}
-		c.Count("in_process_repetition_pairs_compared", 1)
+		pre = "C05|in-process-repetition|"
+		if rr.Job.Run.IDCrossDigits > 0 && k == len(rr.Reps)-1 {
+			// the last execution ran with the id counter moved so that it passes a
+			// power of ten while a kernel is being dispatched
+			pre = "C05|id-offset|"
+			c.Count("id_offset_crossing_executions_compared", 1)
+			crossed := false
+			for _, sp := range rp.Res.KernelIDSpans {
+				for pow := int64(100000); pow <= 100000000; pow *= 10 {
+					if sp[0] < pow && pow <= sp[1] {
+						crossed = true
+					}
+				}
+			}
+			if crossed {
+				c.Count("id_offset_runs_crossing_a_power_of_ten_during_a_kernel", 1)
+			} else {
+				c.Count("id_offset_runs_that_missed_the_crossing", 1)
+			}
+		} else {
+			c.Count("in_process_repetition_pairs_compared", 1)
+		}
 		c.Count("metric_rows_compared", int64(len(first.Metrics)))
 		if rp.Res.Handoffs >= 10 && len(rp.Metrics) >= 100 {
 			c.Nontrivial(fmt.Sprintf("%s|%s|repetition%d", cr.Case.Name, rr.Job.Run.hostKey(), k+2))
@@ -1352,9 +1396,10 @@ func parentMain() {
 		// contention at the DRAM controllers was observed, not hoped for
 		"mi300a_dram_cycles_with_2_or_more_pending": int64(c.N(8000, 20000)), "mi300a_dram_cycles_with_2_or_more_pending_same_bank": int64(c.N(150, 400)),
 		"mi300a_contended_case_executions_with_same_bank_contention": int64(c.N(4, 5)),
-		"parallel_emulation_runs_of_lds_kernels":                     int64(c.N(10, 24)),
-		"r9nano_l2_cycles_with_2_or_more_pending":                    int64(c.N(5000, 50000)),
-		"observed_d2h_completed_on_flush_reply":                      int64(c.N(8, 60)), "observed_d2h_on_flush_reply_with_stall": int64(c.N(4, 30)),
+		"id_offset_runs_crossing_a_power_of_ten_during_a_kernel":     int64(c.N(4, 30)), "id_offset_fresh_process_pairs_compared": int64(c.N(6, 30)),
+		"parallel_emulation_runs_of_lds_kernels":  int64(c.N(10, 24)),
+		"r9nano_l2_cycles_with_2_or_more_pending": int64(c.N(5000, 50000)),
+		"observed_d2h_completed_on_flush_reply":   int64(c.N(8, 60)), "observed_d2h_on_flush_reply_with_stall": int64(c.N(4, 30)),
 	}
 	if restricted { // a single case: only require that it was compared at all
 		minNT = 2
@@ -1369,6 +1414,7 @@ func parentMain() {
 			"distinct_nontrivial = distinct (case, host condition) pairs of completed runs with >= 10 application->engine hand-offs and >= 100 metric rows, compared against another run of the same case",
 		Assumptions: []string{
 			"in-process repetitions: one family-A child per case executes the simulation 2 (thorough: 3) times on a fresh runner.Runner each, flags parsed once, as amd/tests/deterministic does; execution k is compared with execution 1 of that process (buffers without process ids, absolute engine times of the per-simulation engine, every metric row of the per-simulation sqlite file), execution 1 with the fresh-process runs",
+			"id-generator offsets: ids are taken from akita's process-wide sequential generator before a platform build (fresh processes: 1, 12345, 999990) or before the last in-process repetition so that the counter passes 10^5..10^7 a few hundred to a few thousand ids after a kernel's launch command started (calibrated on repetition 1 of the same process; the crossing is verified on the recorded id span of the kernel); reading the counter takes one id, in every run alike",
 			"contention bookkeeping: a hook on the Top port of every DRAM controller / L2 cache counts the cycles in which the component retrieved >= 2 requests (DMA-engine requests excluded at the DRAM); for the mi300a banked DRAM model also those with >= 2 requests for the same bank (bank = (converted address >> 6) % 16, the values timingconfig/mi300a configures). This is a necessary condition for the controller's order among pending requests to matter, not a sufficient one; requests left pending from earlier cycles are not visible at the port",
 			"copy hand-off family: the last reply of a copy command is observed through a tracer on the Driver (request tasks of the command's task); a blocking D2H must have delivered its data when it returns: the application's immediate snapshot of the destination equals the snapshot after a quiescent point and the one of the plain run; race reports are judged only when application code and driver code touch the same host buffer",
 			"one application goroutine per simulation (runner.Run with one benchmark); serial engine except in the parallel-engine comparison, where only buffers are compared",
